@@ -3,7 +3,7 @@ NEXT Next
 VIEW View
 CONSTANTS
   MaxFaults = 2
-  Kinds = {"msg", "namew", "rdw", "optw", "namet", "rdt", "ttl", "zone", "msgt"}
+  Kinds = {"msg", "namew", "rdw", "optw", "namet", "rdt", "ttl", "zone", "msgt", "optm", "rdg"}
   PairBases = {"M1", "M5", "N1", "N2", "L1", "T1"}
 INVARIANT OctetsOK
 INVARIANT DescriptorDeterminesInput
@@ -13,6 +13,7 @@ INVARIANT TrailingRefused
 INVARIANT RdlenMismatchRefused
 INVARIANT FailuresOrdered
 INVARIANT NameLaw
+INVARIANT OptmLaw
 INVARIANT TextLaw
 INVARIANT SpecLaw
 CHECK_DEADLOCK FALSE
